@@ -22,8 +22,10 @@ for p in props:
                 bad += 1
             outs.append(json.load(open(os.path.join(d, tag + ".json"))))
         a, b = outs
-        diff = [k for k in sorted(set(a) | set(b)) if a.get(k) != b.get(k)]
-        print(f"{p}: {len(a)} cases (16 workers, hashseed 0) vs {len(b)} cases (5 workers, hashseed 4242): {len(diff)} differing digests")
+        both = sorted(set(a) & set(b))
+        diff = [k for k in both if a[k] != b[k]]
+        note = "" if len(both) == len(a) == len(b) else f" ({len(both)} cases ran in both: a wall-clock cap skipped the rest)"
+        print(f"{p}: {len(a)} cases (16 workers, hashseed 0) vs {len(b)} cases (5 workers, hashseed 4242): {len(diff)} differing digests{note}")
         for k in diff[:5]:
             print("   ", k, a.get(k), b.get(k))
         bad += bool(diff)
